@@ -45,12 +45,13 @@ PowCases == Cross(PowArgs, LAMBDA a : PowArgs, LAMBDA a, b : [t |-> <<SPrint(Cal
                                                                c |-> "num:pow", key |-> "pow(" \o a[1] \o "," \o b[1] \o ")", stdin |-> <<>>])
 
 (* ---- min / max: all orderings, list form and array form ---- *)
-MM == << Num(3), Neg(Num(2)), NumLit("3.5"), Num(3), Neg(Num(0)), Num(0) >>
+MM == << Num(3), Neg(Num(2)), NumLit("3.5"), Num(3), Neg(Num(0)), Num(0), InfE, Neg(InfE), NumLit("1.7976931348623157e308") >>
 RECURSIVE Tuples(_, _)     \* all sequences of n indices 1..m
 Tuples(n, m) == IF n = 0 THEN << <<>> >> ELSE Cross(Tuples(n - 1, m), LAMBDA h : [i \in 1..m |-> i], LAMBDA h, k : Append(h, k))
 RECURSIVE TName(_)
 TName(ks) == IF ks = <<>> THEN "" ELSE IntStr(ks[1]) \o TName(Tail(ks))
-MMLists == FlattenSeq([n \in 1..3 |-> Tuples(n, 4)]) \o << <<5, 6>>, <<6, 5>>, <<1, 2, 3, 4>>, <<4, 3, 2, 1>>, <<2, 4, 1, 3>> >>
+MMLists == FlattenSeq([n \in 1..3 |-> Tuples(n, 4)]) \o << <<5, 6>>, <<6, 5>>, <<1, 2, 3, 4>>, <<4, 3, 2, 1>>, <<2, 4, 1, 3>>,
+                                                              <<7>>, <<8>>, <<7, 7>>, <<8, 8>>, <<7, 8>>, <<8, 7>>, <<7, 1>>, <<1, 8>>, <<9, 7>>, <<8, 9>>, <<9>>, <<7, 9, 8, 1>> >>
 MinMaxCases == [i \in 1..Len(MMLists) |-> LET es == [j \in 1..Len(MMLists[i]) |-> MM[MMLists[i][j]]] IN
                   [t |-> << SPrint(Call(Id("min"), es)), SPrint(Call(Id("max"), es)), SPrint(Call(Id("min"), <<Arr(es)>>)), SPrint(Call(Id("max"), <<Arr(es)>>)) >>,
                    c |-> "minmax:" \o IntStr(Len(es)), key |-> "minmax:" \o TName(MMLists[i]), stdin |-> <<>>]]
@@ -62,7 +63,12 @@ MinMaxCases == [i \in 1..Len(MMLists) |-> LET es == [j \in 1..Len(MMLists[i]) |-
                      [t |-> <<SPrint(Call(Id("max"), <<Arr(<<Arr(<<Num(1)>>), Num(2)>>)>>))>>, c |-> "minmax:nested-array", key |-> "max([[1],2])", stdin |-> <<>>],
                      [t |-> <<SPrint(Call(Id("min"), <<Arr(<<Num(1), Str("x")>>)>>))>>, c |-> "minmax:string-in-array", key |-> "min([1,x])", stdin |-> <<>>] >>
 
-Cases == MisuseCases \o InputCases \o UnaryCases \o PowCases \o MinMaxCases
+(* built-ins are values: each equals itself and nothing else, whatever holds it *)
+SelfCases == [i \in 1..Len(BuiltinSeq) |-> LET b == BuiltinSeq[i]  o == BuiltinSeq[1 + (i % Len(BuiltinSeq))] IN
+   [t |-> << SPrint(Bin("==", Id(b), Id(b))), SPrint(Bin("!=", Id(b), Id(b))), SVar("h", Id(b)), SPrint(Bin("==", Id("h"), Id(b))), SPrint(Bin("==", Id(b), Id(o))),
+             SPrint(Bin("==", Arr(<<Id(b)>>), Arr(<<Id(b)>>))), SPrint(Id(b)), SPrint(Arr(<<Id(b)>>)), SIf(Id(b), SPrint(Num(1)), SPrint(Num(2))), SPrint(Bin("==", Id(b), Lit(VNil))) >>,
+    c |-> "builtin-as-value", key |-> "self:" \o b, stdin |-> <<>>]]
+Cases == MisuseCases \o InputCases \o UnaryCases \o PowCases \o MinMaxCases \o SelfCases
 Programs == [i \in 1..Len(Cases) |-> LayoutProg(Cases[i].t, 1)]
 FamProgOf(i) == Programs[i]
 Init == \E i \in 1..Len(Programs) : InitSem(i, Cases[i].stdin, FALSE)
